@@ -36,22 +36,22 @@ func init() {
 }
 
 func runC20(w *mon.Worker) {
-	for i := 0; i < w.Share(w.Scale(16000, 3000000)); i++ {
+	for i := 0; i < w.Share(w.Scale(16000, 9000000)); i++ {
 		w.Case("ioseek", nil, seekCase)
 	}
-	for i := 0; i < w.Share(w.Scale(8000, 1500000)); i++ {
+	for i := 0; i < w.Share(w.Scale(8000, 4500000)); i++ {
 		w.Case("iosizer", nil, sizerCase)
 	}
-	for i := 0; i < w.Share(w.Scale(8000, 1500000)); i++ {
+	for i := 0; i < w.Share(w.Scale(8000, 4500000)); i++ {
 		w.Case("iocloser", nil, closerCase)
 	}
-	for i := 0; i < w.Share(w.Scale(800, 100000)); i++ {
+	for i := 0; i < w.Share(w.Scale(800, 300000)); i++ {
 		w.Case("iocloser-concurrent", nil, closerConcurrentCase)
 	}
-	for i := 0; i < w.Share(w.Scale(640, 60000)); i++ {
+	for i := 0; i < w.Share(w.Scale(640, 180000)); i++ {
 		w.Case("ioproxy", nil, proxyCase)
 	}
-	for i := 0; i < w.Share(w.Scale(16000, 3000000)); i++ {
+	for i := 0; i < w.Share(w.Scale(16000, 9000000)); i++ {
 		w.Case("unique", nil, uniqueCase)
 	}
 }
